@@ -74,6 +74,36 @@ func (e *Engine) registerIntrinsics() {
 		r.mustNot(Not(a[1].(*Term)), "assert", lbl(label), "assertion "+label)
 		return nil
 	}
+	in[rtPkg+".And"] = func(r *Run, fr *Frame, cc *ssa.CallCommon, a []Value) Value { return And(a[0].(*Term), a[1].(*Term)) }
+	in[rtPkg+".Or"] = func(r *Run, fr *Frame, cc *ssa.CallCommon, a []Value) Value { return Or(a[0].(*Term), a[1].(*Term)) }
+	in[rtPkg+".Implies"] = func(r *Run, fr *Frame, cc *ssa.CallCommon, a []Value) Value { return Or(Not(a[0].(*Term)), a[1].(*Term)) }
+	in[rtPkg+".All"] = func(r *Run, fr *Frame, cc *ssa.CallCommon, a []Value) Value {
+		res := True
+		s := a[0].(*SliceV)
+		for i := 0; i < s.len; i++ {
+			res = And(res, elemsOf(s)[s.off+i].(*Term))
+		}
+		return res
+	}
+	in[rtPkg+".Any"] = func(r *Run, fr *Frame, cc *ssa.CallCommon, a []Value) Value {
+		res := False
+		s := a[0].(*SliceV)
+		for i := 0; i < s.len; i++ {
+			res = Or(res, elemsOf(s)[s.off+i].(*Term))
+		}
+		return res
+	}
+	in[rtPkg+".EqBytes"] = func(r *Run, fr *Frame, cc *ssa.CallCommon, a []Value) Value {
+		x, y := a[0].(*SliceV), a[1].(*SliceV)
+		if x.len != y.len {
+			return False
+		}
+		if x.len == 0 {
+			return True
+		}
+		return Eq(catBytes(sliceBytes(x)), catBytes(sliceBytes(y)))
+	}
+	in[rtPkg+".IteInt"] = func(r *Run, fr *Frame, cc *ssa.CallCommon, a []Value) Value { return Ite(a[0].(*Term), a[1].(*Term), a[2].(*Term)) }
 	in[rtPkg+".Reach"] = func(r *Run, fr *Frame, cc *ssa.CallCommon, a []Value) Value {
 		label, _ := a[0].(*StrV).Concrete()
 		r.reach[label] = true
